@@ -16,7 +16,7 @@ from cherab.tools.raytransfer import CartesianRayTransferEmitter, CylindricalRay
 from cherab.tools.raytransfer import CartesianRayTransferIntegrator, CylindricalRayTransferIntegrator
 from cherab.tools.raytransfer import RayTransferPipeline0D, RayTransferPipeline1D, RayTransferPipeline2D
 
-from ..core import Given
+from ..core import Given, deep
 from ..findings import is_open
 from ..oracles import chords as CH
 
@@ -252,7 +252,7 @@ def _options(draw, ncell):
 
 @st.composite
 def box_case(draw):
-    n = [draw(st.integers(1, 6)) for _ in range(3)]
+    n = [draw(st.one_of(st.integers(1, 6), st.integers(1, deep(6, 14)))) for _ in range(3)]
     d = [_size(draw) for _ in range(3)]
     return {"kind": "box", "n": n, "d": d, "step": draw(st.sampled_from(STEPS)), "vox": _voxels(draw, n[0] * n[1] * n[2]),
             "via": draw(st.sampled_from(["ctor", "setter"])), "place": _placement(draw),
@@ -323,7 +323,8 @@ def _cyl_ray(draw, n, nsurf):
 
 @st.composite
 def cyl_case(draw):
-    nr, nz = draw(st.integers(1, 6)), draw(st.integers(1, 6))
+    _n = st.one_of(st.integers(1, 6), st.integers(1, deep(6, 14)))
+    nr, nz = draw(_n), draw(_n)
     nphi = draw(st.sampled_from([1, 1, 2, 3, 4, 5, 6, 7, 8]))
     period = draw(st.sampled_from(PERIODS)) if nphi > 1 else draw(st.sampled_from([360.0, 360.0, 360.0, 90.0]))
     dr, dz = _size(draw), _size(draw)
